@@ -93,7 +93,15 @@ func (c *Ctx) producedExprTypes(root *ssa.Function) map[string]types.Type {
 					continue
 				case *ssa.Extract:
 					if call, ok := x.Tuple.(*ssa.Call); ok {
-						if f := call.Common().StaticCallee(); f != nil {
+						callees := []*ssa.Function{call.Common().StaticCallee()}
+						if callees[0] == nil && !call.Common().IsInvoke() {
+							// a handler taken from a dispatch table: every function the call graph resolves it to
+							callees = c.CG().Callees(call)
+						}
+						for _, f := range callees {
+							if f == nil {
+								continue
+							}
 							res := f.Signature.Results()
 							if res.Len() > 0 {
 								note(res.At(0).Type())
@@ -357,7 +365,24 @@ func c02R3(c *Ctx) {
 		fn := top
 		var li *loopInfo
 		for _, g := range c.logicalBody(top) {
-			if l := loopOver(g, func(v ssa.Value) bool { return outF != nil && loadedField(v) == outF }); l != nil {
+			// the loop ranges over the workflow's Outputs — directly, or over a local that is either that map or the
+			// one-entry map built from the deprecated `output` key
+			if l := loopOver(g, func(v ssa.Value) bool {
+				if outF == nil {
+					return false
+				}
+				if loadedField(v) == outF {
+					return true
+				}
+				if phi, ok := v.(*ssa.Phi); ok {
+					for _, e := range phi.Edges {
+						if loadedField(e) == outF {
+							return true
+						}
+					}
+				}
+				return false
+			}); l != nil {
 				fn, li = g, l
 				break
 			}
